@@ -205,29 +205,35 @@ Definition touch (s s' : state) (sd : bool) (k : eid) (q : option str) : Prop :=
 Definition gd (sd : bool) (ot : otype) (q v : option str) : Prop :=
   ot = Dir -> forall qq p, q = Some qq -> v = Some p -> ~ below (cvs E sd) qq p.
 
+(* no id changes hands, unless the side takes its ids from the provider (oid_is_path) and children are re-filed *)
+Definition okeep (s s' : state) (sd : bool) (ot : otype) (q : option str) : Prop :=
+  (oip E sd = false \/ ot <> Dir \/ q = None) -> forall x sd', oid_of s' x sd' = oid_of s x sd'.
+
 Definition RecOK (rec : cmd -> state -> res state) : Prop :=
   (forall k sd v s s' en, IdxJ s -> get_ent s k = Ok en -> gd sd (s_otype (gs en sd)) (s_path (gs en sd)) v ->
-     rec (CPath true k sd v) s = Ok s' -> IdxJ s' /\ touch s s' sd k (s_path (gs en sd))) /\
+     rec (CPath true k sd v) s = Ok s' ->
+     IdxJ s' /\ touch s s' sd k (s_path (gs en sd)) /\ okeep s s' sd (s_otype (gs en sd)) (s_path (gs en sd))) /\
   (forall e sd v s s', IdxJ s -> rec (COid true e sd v) s = Ok s' -> IdxJ s' /\ pview s' = pview s) /\
   (forall c s s', flag_cmd c = true -> rec c s = Ok s' -> iview s' = iview s).
 
 (* loop invariant of _update_kids for folder e moving from pp to p; s0 = state at loop entry *)
 Definition LInv (e : eid) (sd : bool) (pp p : str) (s0 si : state) : Prop :=
   IdxJ si /\ path_of si e sd = Some p /\
-  (forall x sd', path_of si x sd' = path_of s0 x sd' \/ (sd' = sd /\ moved sd (Some pp) s0 x)).
+  (forall x sd', path_of si x sd' = path_of s0 x sd' \/ (sd' = sd /\ moved sd (Some pp) s0 x)) /\
+  (oip E sd = false -> forall x sd', oid_of si x sd' = oid_of s0 x sd').
 
 Lemma kid_step_spec rec e sd pp p sub s0 si si' :
   RecOK rec -> ~ below (cvs E sd) pp p -> LInv e sd pp p s0 si ->
   kid_step E rec e sd pp p sub si = Ok si' -> LInv e sd pp p s0 si'.
 Proof.
-  intros [R1 [R2 R3]] Hg [HJ [Hpe Hfr]] H. unfold kid_step in H. bind_inv H. rename x into sn.
-  destruct (s_path (gs sn sd)) as [sp|] eqn:Esp; [|injection H as <-; split; [exact HJ|split; assumption]].
-  destruct sp as [|ch sp']; [injection H as <-; split; [exact HJ|split; assumption]|].
+  intros [R1 [R2 R3]] Hg [HJ [Hpe [Hfr Hok0]]] H. unfold kid_step in H. bind_inv H. rename x into sn.
+  destruct (s_path (gs sn sd)) as [sp|] eqn:Esp; [|injection H as <-; split; [exact HJ|split; [assumption|split; assumption]]].
+  destruct sp as [|ch sp']; [injection H as <-; split; [exact HJ|split; [assumption|split; assumption]]|].
   set (sp := ch :: sp') in *.
   destruct (is_subpath (cvs E sd) pp sp true) as [|[|c0 rel0]] eqn:Esub;
-    try (injection H as <-; split; [exact HJ|split; assumption]).
+    try (injection H as <-; split; [exact HJ|split; [assumption|split; assumption]]).
   rewrite Hleg in H. cbn [negb andb] in H.
-  destruct (Nat.eqb_spec sub e) as [->|Hne]; [injection H as <-; split; [exact HJ|split; assumption]|].
+  destruct (Nat.eqb_spec sub e) as [->|Hne]; [injection H as <-; split; [exact HJ|split; [assumption|split; assumption]]|].
   set (rel := c0 :: rel0) in *. set (np := join (cvs E sd) [p; rel]) in *.
   bind_inv H. rename x into s1. bind_inv H. rename x into s2. bind_inv H. rename x into sn2.
   apply get_ent_ok in E0.
@@ -250,7 +256,8 @@ Proof.
   { intros _ qq p0 Hq Hp0. rewrite Hsp1 in Hq. injection Hq as <-. injection Hp0 as <-.
     intros Hb. apply Hg. unfold below in *. unfold np in Hb. rewrite Kc_join, Ksp in Hb.
     apply (below_cancel _ _ (Kc (cvs E sd) rel)). exact Hb. }
-  destruct (R1 _ _ _ _ _ _ HJ1 Hsn1 Hgd E2) as [HJ2 Ht]. rewrite Hsp1 in Ht.
+  destruct (R1 _ _ _ _ _ _ HJ1 Hsn1 Hgd E2) as [HJ2 [Ht Hk2]]. rewrite Hsp1 in Ht.
+  assert (Hs1: oip E sd = false -> s1 = si) by (intros Hoip; rewrite Hoip in E1; injection E1 as <-; reflexivity).
   (* the sync_path write *)
   assert (Hv: iview si' = iview s2).
   { destruct (s_spath (gs sn2 sd)) as [sy|]; [|injection H as <-; reflexivity].
@@ -259,7 +266,9 @@ Proof.
     rewrite iview_raw_side; [reflexivity|intros y; split; reflexivity]. }
   assert (Hfin: forall x sd', path_of si' x sd' = path_of s2 x sd').
   { intros x sd'. apply iview_eq in Hv as [He _]. apply (proj2 (He x sd')). }
-  split; [apply (IdxJ_view s2); [symmetry; exact Hv|exact HJ2]|]. split.
+  split; [apply (IdxJ_view s2); [symmetry; exact Hv|exact HJ2]|]. split; [|split].
+  3:{ intros Hoip x sd'. apply iview_eq in Hv as [He _]. rewrite (proj1 (He x sd')).
+      rewrite (Hk2 (or_introl Hoip)). rewrite (Hs1 Hoip). apply Hok0. exact Hoip. }
   - rewrite Hfin. destruct (Ht e sd) as [Heq|[_ [Hes|Hmv]]].
     + rewrite Heq, Hp1. exact Hpe.
     + exfalso. apply Hne. symmetry. exact Hes.
@@ -295,9 +304,16 @@ Lemma path_main_spec rec e sd v s s1 en :
   path_main E rec e sd v (gs en sd) s = Ok s1 ->
   IdxJ (raw_side s1 e sd (fun y => w_path y v)) /\
   touch s (raw_side s1 e sd (fun y => w_path y v)) sd e (s_path (gs en sd)) /\
-  (tstr v = true -> path_of s1 e sd = v).
+  (tstr v = true -> path_of s1 e sd = v) /\
+  okeep s (raw_side s1 e sd (fun y => w_path y v)) sd (s_otype (gs en sd)) (s_path (gs en sd)).
 Proof.
   intros HR HJ Hen Eas Hgd Em. apply get_ent_ok in Hen.
+  assert (Hkeep: forall t, (forall x sd', oid_of t x sd' = oid_of s x sd') ->
+            forall x sd', oid_of (raw_side t e sd (fun y => w_path y v)) x sd' = oid_of s x sd').
+  { intros t Ht x sd'. rewrite oid_of_raw_side.
+    destruct (Nat.eqb_spec x e) as [->|]; simpl; [|apply Ht].
+    destruct (Bool.eqb_spec sd' sd) as [->|]; [|apply Ht].
+    rewrite <- Ht. unfold oid_of. destruct (nth_error (ents t) e); reflexivity. }
   assert (Hoe: oid_of s e sd = s_oid (gs en sd)) by (unfold oid_of; rewrite Hen; reflexivity).
   assert (Hpe: path_of s e sd = s_path (gs en sd)) by (unfold path_of; rewrite Hen; reflexivity).
   unfold path_main in Em.
@@ -306,9 +322,10 @@ Proof.
     injection Em as <-. apply ostr_eqb_eq in Eeq.
     assert (Hv: iview (raw_side s e sd (fun y => w_path y v)) = iview s).
     { apply (iview_raw_side_at _ _ _ _ en); [exact Hen|reflexivity|simpl; symmetry; exact Eeq]. }
-    split; [apply (IdxJ_view s); [symmetry; exact Hv|exact HJ]|]. split.
+    split; [apply (IdxJ_view s); [symmetry; exact Hv|exact HJ]|]. split; [|split].
     - intros x sd'. left. apply iview_eq in Hv as [He _]. apply (proj2 (He x sd')).
-    - intros _. rewrite Hpe. exact Eeq. }
+    - intros _. rewrite Hpe. exact Eeq.
+    - intros _. apply Hkeep. reflexivity. }
   set (prior := s_path (gs en sd)) in *.
   set (sa := match prior with
              | Some pp => if tstr prior then slot_pop s sd pp (s_oid (gs en sd)) else s
@@ -340,7 +357,8 @@ Proof.
             path_of (raw_side t e sd (fun y => w_path y v)) x sd' = if Nat.eqb x e && Bool.eqb sd' sd then v else path_of t x sd').
   { intros t Ht x sd'. rewrite path_of_raw_side. destruct (nth_error (ents t) e); [reflexivity|contradiction]. }
   destruct (tstr v) eqn:Ev.
-  2:{ rewrite (Hfalsy eq_refl). split; [|split; [|discriminate]].
+  2:{ rewrite (Hfalsy eq_refl). split; [|split; [|split; [discriminate|]]].
+      3:{ intros _. apply Hkeep. intros x sd'. unfold oid_of. rewrite Hsa_e. reflexivity. }
       - apply (idx_path_falsy s _ e sd v prior HJ Hpe Ev).
         + intros sd' k. rewrite oids_raw_side. apply Hsa_o.
         + intros e' sd'. rewrite oid_of_raw_side. simpl. rewrite Hsa_e, Hen. simpl.
@@ -384,11 +402,17 @@ Proof.
       rewrite Hsa_p. reflexivity. }
   bind_inv Em. rename x into sk.
   (* the children *)
+  assert (Hosc: forall x sd', oid_of sc x sd' = oid_of s x sd').
+  { intros e' sd'. unfold sc. rewrite oid_of_raw_side, Hensc. simpl.
+    destruct (Nat.eqb_spec e' e) as [->|]; simpl; [|unfold oid_of; rewrite ents_slot_set, Hsa_e; reflexivity].
+    destruct (Bool.eqb_spec sd' sd) as [->|]; [rewrite Hoe; exact Eo|unfold oid_of; rewrite ents_slot_set, Hsa_e; reflexivity]. }
   assert (Hloop: IdxJ sk /\ path_of sk e sd = Some p /\
-                 forall x sd', path_of sk x sd' = path_of sc x sd' \/ (sd' = sd /\ moved sd prior sc x)).
+                 (forall x sd', path_of sk x sd' = path_of sc x sd' \/ (sd' = sd /\ moved sd prior sc x)) /\
+                 ((oip E sd = false \/ s_otype (gs en sd) <> Dir \/ prior = None) -> forall x sd', oid_of sk x sd' = oid_of sc x sd')).
   { assert (Hsc0: IdxJ sc /\ path_of sc e sd = Some p /\
-                  forall x sd', path_of sc x sd' = path_of sc x sd' \/ (sd' = sd /\ moved sd prior sc x)).
-    { split; [exact HJc|]. split; [rewrite Hpsc, Nat.eqb_refl, bool_eqb_refl; reflexivity|]. intros; left; reflexivity. }
+                  (forall x sd', path_of sc x sd' = path_of sc x sd' \/ (sd' = sd /\ moved sd prior sc x)) /\
+                  ((oip E sd = false \/ s_otype (gs en sd) <> Dir \/ prior = None) -> forall x sd', oid_of sc x sd' = oid_of sc x sd')).
+    { split; [exact HJc|]. split; [rewrite Hpsc, Nat.eqb_refl, bool_eqb_refl; reflexivity|]. split; intros; [left|]; reflexivity. }
     destruct (otype_eqb (s_otype (gs en sd)) Dir && negb false)%bool eqn:Ed; [|injection E0 as <-; exact Hsc0].
     destruct prior as [pp|] eqn:Epr; [|injection E0 as <-; exact Hsc0].
     bind_inv E0. destruct x as [order s0].
@@ -400,14 +424,16 @@ Proof.
     assert (HI0: LInv e sd pp p s0 s0).
     { split; [apply (IdxJ_view sc); [symmetry; exact Hv0|exact HJc]|]. split.
       - rewrite (proj2 (He0 e sd)). rewrite Hpsc, Nat.eqb_refl, bool_eqb_refl. reflexivity.
-      - intros; left; reflexivity. }
-    destruct (kids_loop_spec _ _ _ _ _ _ HR Hg _ _ _ HI0 E0) as [A [B C]].
-    split; [exact A|]. split; [exact B|].
+      - split; intros; [left|]; reflexivity. }
+    destruct (kids_loop_spec _ _ _ _ _ _ HR Hg _ _ _ HI0 E0) as [A [B [C D]]].
+    split; [exact A|]. split; [exact B|]. split.
+    2:{ intros [Hoip|[Hnd|Hnp]] x sd'; [|contradiction|discriminate].
+        rewrite (D Hoip). apply (proj1 (He0 x sd')). }
     intros x sd'. destruct (C x sd') as [C1|[-> C2]].
     - left. rewrite C1. apply (proj2 (He0 x sd')).
     - right. split; [reflexivity|]. destruct C2 as [qq [px [r [Hq [Hpx HK]]]]].
       exists qq, px, r. split; [exact Hq|]. split; [rewrite <- (proj2 (He0 x sd)); exact Hpx|exact HK]. }
-  destruct Hloop as [HJk [Hpk Hfk]].
+  destruct Hloop as [HJk [Hpk [Hfk Hkk]]].
   destruct HR as [_ [_ R3]]. apply R3 in Em; [|reflexivity].
   destruct (iview_eq _ _ Em) as [He1 _].
   assert (HJ1: IdxJ s1) by (apply (IdxJ_view sk); [symmetry; exact Em|exact HJk]).
@@ -415,7 +441,8 @@ Proof.
   destruct (path_of_some_ent _ _ _ _ Hp1) as [en1 [Hen1 Hpen1]]. apply get_ent_ok in Hen1.
   assert (Hvf: iview (raw_side s1 e sd (fun y => w_path y (Some p))) = iview s1).
   { apply (iview_raw_side_at _ _ _ _ en1); [exact Hen1|reflexivity|simpl; symmetry; exact Hpen1]. }
-  split; [apply (IdxJ_view s1); [symmetry; exact Hvf|exact HJ1]|]. split; [|intros _; exact Hp1].
+  split; [apply (IdxJ_view s1); [symmetry; exact Hvf|exact HJ1]|]. split; [|split; [intros _; exact Hp1|]].
+  2:{ intros Hc. apply Hkeep. intros x sd'. rewrite (proj1 (He1 x sd')), (Hkk Hc). apply Hosc. }
   intros x sd'. destruct (iview_eq _ _ Hvf) as [Hef _]. rewrite (proj2 (Hef x sd')), (proj2 (He1 x sd')).
   destruct (Nat.eqb_spec x e) as [->|Hxe].
   - destruct (Bool.eqb_spec sd' sd) as [->|Hns]; [right; split; [reflexivity|left; reflexivity]|].
@@ -438,8 +465,8 @@ Proof.
       destruct (tstr v && negb (tstr (s_oid (gs en sd))))%bool eqn:Eas; [discriminate|].
       destruct (path_main E (exec E f) k sd v (gs en sd) s) as [s1|] eqn:Em; cbn [bind] in H; [|discriminate].
       injection H as <-.
-      destruct (path_main_spec _ _ _ _ _ _ _ IH HJ Hen Eas Hgd Em) as [A [B _]].
-      rewrite raw_side_dirty_add. split; [apply (IdxJ_view _ _ (eq_refl _) A)|exact B].
+      destruct (path_main_spec _ _ _ _ _ _ _ IH HJ Hen Eas Hgd Em) as [A [B [_ D]]].
+      rewrite raw_side_dirty_add. split; [apply (IdxJ_view _ _ (eq_refl _) A)|]. split; [exact B|exact D].
     + intros e sd v s s' HJ H. split; [eapply exec_oid_pres; eassumption|eapply exec_oid_pview; eassumption].
     + intros c s s' Hc H. apply exec_flag_view in H; [apply H|exact Hc].
 Qed.
@@ -447,7 +474,8 @@ Qed.
 (* ent[side].path = v through the intercepted setter *)
 Lemma exec_path_true_pres f k sd v s s' en :
   IdxJ s -> get_ent s k = Ok en -> gd sd (s_otype (gs en sd)) (s_path (gs en sd)) v ->
-  exec E f (CPath true k sd v) s = Ok s' -> IdxJ s' /\ touch s s' sd k (s_path (gs en sd)).
+  exec E f (CPath true k sd v) s = Ok s' ->
+  IdxJ s' /\ touch s s' sd k (s_path (gs en sd)) /\ okeep s s' sd (s_otype (gs en sd)) (s_path (gs en sd)).
 Proof. apply (proj1 (exec_rec_ok f)). Qed.
 
 (* updated(side, "path", v) without the field write (SyncEntry.__setitem__): the invariant holds once
@@ -457,15 +485,16 @@ Lemma exec_path_false_pres f k sd v s s' en :
   exec E f (CPath false k sd v) s = Ok s' ->
   IdxJ (raw_side s' k sd (fun y => w_path y v)) /\
   touch s (raw_side s' k sd (fun y => w_path y v)) sd k (s_path (gs en sd)) /\
-  (tstr v = true -> path_of s' k sd = v).
+  (tstr v = true -> path_of s' k sd = v) /\
+  okeep s (raw_side s' k sd (fun y => w_path y v)) sd (s_otype (gs en sd)) (s_path (gs en sd)).
 Proof.
   intros HJ Hen Hgd H. destruct f as [|f]; [discriminate|].
   rewrite exec_path_eq, Hen in H. cbn [bind] in H. cbv zeta in H.
   destruct (tstr v && negb (tstr (s_oid (gs en sd))))%bool eqn:Eas; [discriminate|].
   destruct (path_main E (exec E f) k sd v (gs en sd) s) as [s1|] eqn:Em; cbn [bind] in H; [|discriminate].
   injection H as <-.
-  destruct (path_main_spec _ _ _ _ _ _ _ (exec_rec_ok f) HJ Hen Eas Hgd Em) as [A [B C]].
-  rewrite raw_side_dirty_add. split; [apply (IdxJ_view _ _ (eq_refl _) A)|]. split; [exact B|exact C].
+  destruct (path_main_spec _ _ _ _ _ _ _ (exec_rec_ok f) HJ Hen Eas Hgd Em) as [A [B [C D]]].
+  rewrite raw_side_dirty_add. split; [apply (IdxJ_view _ _ (eq_refl _) A)|]. split; [exact B|]. split; [exact C|exact D].
 Qed.
 End Folder.
 
